@@ -7,5 +7,5 @@ for c in "$@"; do
 done
 git -C /repo checkout -- .
 export GOFLAGS=-mod=mod GOPROXY=off
-(cd /verif/go && go build -tags verif -o /verif/bin/harness ./cmd/harness)
+(cd /verif/go && go build -tags verif -o /verif/bin/harness ./cmd/harness && go build -o /verif/bin/nilaway go.uber.org/nilaway/cmd/nilaway)
 git -C /repo status --short | head -3
